@@ -4,6 +4,10 @@ import Mathlib.Algebra.Order.Field.Rat
 import Mathlib.Logic.Relation
 import Mathlib.Data.List.Nodup
 import Mathlib.Data.List.Perm.Subperm
+import Mathlib.LinearAlgebra.Matrix.NonsingularInverse
+import Mathlib.Algebra.BigOperators.Intervals
+import Mathlib.Data.Matrix.Block
+import Mathlib.LinearAlgebra.Matrix.Rank
 
 namespace PorepyVerif.C37
 
@@ -174,7 +178,6 @@ theorem unitVec_succ_self (k : Nat) : unitVec (k + 1) k = zeros k ++ [1] := by
 theorem unitVec_zero_succ (n : Nat) : unitVec (n + 1) 0 = 1 :: zeros n := by
   simp only [unitVec, List.range_succ_eq_map, List.map_cons, List.map_map]
   simp [zeros, Function.comp_def]
-  all_goals exact List.eq_replicate_iff.mpr ⟨by simp, by simp⟩
 
 theorem unitVec_succ_succ (n i : Nat) : unitVec (n + 1) (i + 1) = 0 :: unitVec n i := by
   simp only [unitVec, List.range_succ_eq_map, List.map_cons, List.map_map]
@@ -691,6 +694,468 @@ theorem edges_lt (n : Nat) (A : Mat) (hsq : isSquare n A = true) :
     ∀ e ∈ edges A, e.1 < n ∧ e.2 < n := by
   intro e he
   exact entry_ne_zero_lt n A hsq e.1 e.2 ((mem_edges A e.1 e.2).mp he)
+
+
+
+/-! ### label classes, components -/
+
+theorem mem_rowsOf (n : Nat) (lab : List Nat) (l i : Nat) :
+    i ∈ rowsOf n lab l ↔ i < n ∧ lab[i]? = some l := by
+  simp [rowsOf]
+
+theorem mem_colsOf (n : Nat) (lab : List Nat) (l j : Nat) :
+    j ∈ colsOf n lab l ↔ j < n ∧ lab[n + j]? = some l := by
+  simp [colsOf]
+
+theorem nodup_rowsOf (n : Nat) (lab : List Nat) (l : Nat) : (rowsOf n lab l).Nodup :=
+  List.Nodup.filter _ List.nodup_range
+
+theorem nodup_colsOf (n : Nat) (lab : List Nat) (l : Nat) : (colsOf n lab l).Nodup :=
+  List.Nodup.filter _ List.nodup_range
+
+theorem mem_components (n : Nat) (lab : List Nat) (c : List Nat × List Nat) :
+    c ∈ components n lab ↔
+      ∃ l, l < 2 * n ∧ c = (rowsOf n lab l, colsOf n lab l) ∧ c.1 ≠ [] ∧ c.2 ≠ [] := by
+  simp only [components, groups, List.mem_filter, List.mem_map, List.mem_range, Bool.and_eq_true,
+    Bool.not_eq_true', List.isEmpty_eq_false_iff]
+  constructor
+  · rintro ⟨⟨l, hl, rfl⟩, h1, h2⟩
+    exact ⟨l, hl, rfl, h1, h2⟩
+  · rintro ⟨l, hl, rfl, h1, h2⟩
+    exact ⟨⟨l, hl, rfl⟩, h1, h2⟩
+
+/-- different label classes are disjoint (rows) -/
+theorem rowsOf_disjoint (n : Nat) (lab : List Nat) (l l' : Nat) (h : l ≠ l') :
+    List.Disjoint (rowsOf n lab l) (rowsOf n lab l') := by
+  intro i h1 h2
+  rw [mem_rowsOf] at h1 h2
+  rw [h1.2] at h2
+  exact h (Option.some.inj h2.2)
+
+theorem colsOf_disjoint (n : Nat) (lab : List Nat) (l l' : Nat) (h : l ≠ l') :
+    List.Disjoint (colsOf n lab l) (colsOf n lab l') := by
+  intro i h1 h2
+  rw [mem_colsOf] at h1 h2
+  rw [h1.2] at h2
+  exact h (Option.some.inj h2.2)
+
+theorem pairwise_groups (n : Nat) (lab : List Nat) :
+    (groups n lab).Pairwise (fun g g' => List.Disjoint g.1 g'.1 ∧ List.Disjoint g.2 g'.2) := by
+  unfold groups
+  rw [List.pairwise_map]
+  exact List.Pairwise.imp
+    (fun {l l'} (hl : l < l') => ⟨rowsOf_disjoint n lab l l' (by omega), colsOf_disjoint n lab l l' (by omega)⟩)
+    List.pairwise_lt_range
+
+theorem pairwise_components (n : Nat) (lab : List Nat) :
+    (components n lab).Pairwise (fun g g' => List.Disjoint g.1 g'.1 ∧ List.Disjoint g.2 g'.2) :=
+  List.Pairwise.sublist List.filter_sublist (pairwise_groups n lab)
+
+theorem nodup_components_rows (n : Nat) (lab : List Nat) : ((components n lab).flatMap (·.1)).Nodup := by
+  rw [List.nodup_flatMap]
+  constructor
+  · intro c hc
+    obtain ⟨l, _, rfl, _⟩ := (mem_components n lab c).mp hc
+    exact nodup_rowsOf n lab l
+  · exact List.Pairwise.imp (fun h => h.1) (pairwise_components n lab)
+
+theorem nodup_components_cols (n : Nat) (lab : List Nat) : ((components n lab).flatMap (·.2)).Nodup := by
+  rw [List.nodup_flatMap]
+  constructor
+  · intro c hc
+    obtain ⟨l, _, rfl, _⟩ := (mem_components n lab c).mp hc
+    exact nodup_colsOf n lab l
+  · exact List.Pairwise.imp (fun h => h.2) (pairwise_components n lab)
+
+theorem components_rows_lt (n : Nat) (lab : List Nat) : ∀ i ∈ (components n lab).flatMap (·.1), i < n := by
+  intro i hi
+  obtain ⟨c, hc, hic⟩ := List.mem_flatMap.mp hi
+  obtain ⟨l, _, rfl, _⟩ := (mem_components n lab c).mp hc
+  exact ((mem_rowsOf n lab l i).mp hic).1
+
+theorem components_cols_lt (n : Nat) (lab : List Nat) : ∀ j ∈ (components n lab).flatMap (·.2), j < n := by
+  intro j hj
+  obtain ⟨c, hc, hjc⟩ := List.mem_flatMap.mp hj
+  obtain ⟨l, _, rfl, _⟩ := (mem_components n lab c).mp hc
+  exact ((mem_colsOf n lab l j).mp hjc).1
+
+/-- every non-zero entry lies inside one component -/
+theorem components_closed_aux (n : Nat) (A : Mat) (hsq : isSquare n A = true) (i j : Nat)
+    (h : entry A i j ≠ 0) :
+    ∃ c ∈ components n (labels n (edges A)), i ∈ c.1 ∧ j ∈ c.2 := by
+  obtain ⟨hi, hj⟩ := entry_ne_zero_lt n A hsq i j h
+  have hmem : (i, j) ∈ edges A := (mem_edges A i j).mpr h
+  have hcl := labels_closed n (edges A) (edges_lt n A hsq) (i, j) hmem
+  have hlen := length_labels n (edges A)
+  have hil : i < (labels n (edges A)).length := by omega
+  have e1 : (labels n (edges A))[i]? = some (labels n (edges A))[i] := List.getElem?_eq_getElem hil
+  have hb := (labInv_labels n (edges A)).bound _ _ e1
+  refine ⟨(rowsOf n (labels n (edges A)) (labels n (edges A))[i], colsOf n (labels n (edges A)) (labels n (edges A))[i]), ?_, ?_, ?_⟩
+  · rw [mem_components]
+    refine ⟨_, hb, rfl, ?_, ?_⟩
+    · exact List.ne_nil_of_mem ((mem_rowsOf _ _ _ _).mpr ⟨hi, e1⟩)
+    · exact List.ne_nil_of_mem ((mem_colsOf _ _ _ _).mpr ⟨hj, by rw [← hcl]; exact e1⟩)
+  · exact (mem_rowsOf _ _ _ _).mpr ⟨hi, e1⟩
+  · exact (mem_colsOf _ _ _ _).mpr ⟨hj, by rw [← hcl]; exact e1⟩
+
+/-- nodes of a block, in the numbering of the graph (rows `i`, columns `n + j`) -/
+def blockNodes (n : Nat) (c : List Nat × List Nat) : List Nat := c.1 ++ c.2.map (n + ·)
+
+theorem components_minimal_aux (n : Nat) (es : List (Nat × Nat)) (c : List Nat × List Nat)
+    (hc : c ∈ components n (labels n es)) (u v : Nat) (hu : u ∈ blockNodes n c) (hv : v ∈ blockNodes n c) :
+    Conn n es u v := by
+  obtain ⟨l, _, rfl, _⟩ := (mem_components _ _ c).mp hc
+  have key : ∀ w, w ∈ blockNodes n (rowsOf n (labels n es) l, colsOf n (labels n es) l) →
+      (labels n es)[w]? = some l := by
+    intro w hw
+    rcases List.mem_append.mp hw with h | h
+    · exact ((mem_rowsOf _ _ _ _).mp h).2
+    · obtain ⟨j, hj, rfl⟩ := List.mem_map.mp h
+      exact ((mem_colsOf _ _ _ _).mp hj).2
+  exact (labInv_labels n es).sound u v l (key u hu) (key v hv)
+
+
+
+/-! ### permSearch -/
+
+/-- the rows that are in no component (all-zero rows) -/
+def missingRows (n : Nat) (comps : List (List Nat × List Nat)) : List Nat :=
+  (List.range n).filter (fun i => !(comps.flatMap (·.1)).contains i)
+
+theorem permSearch_cases (n : Nat) (A : Mat) (r : PermResult) (h : permSearch n n A = .ok r) :
+    let comps := components n (labels n (edges A))
+    (comps.length = 1 ∧ r.blocks = [(List.range n, List.range n)] ∧ r.rowPerm = List.range n ∧
+        r.colPerm = List.range n ∧ r.sizes = [n]) ∨
+    (comps.length ≠ 1 ∧ (∀ c ∈ comps, c.1.length = c.2.length) ∧
+      r.blocks = comps ++ (missingRows n comps).map (fun i => ([i], [i])) ∧
+      r.rowPerm = r.blocks.flatMap (·.1) ∧ r.colPerm = r.blocks.flatMap (·.2) ∧
+      r.sizes = r.blocks.map (·.1.length)) := by
+  intro comps
+  unfold permSearch at h
+  simp only [bne_self_eq_false, Bool.false_eq_true, if_false] at h
+  by_cases h1 : comps.length = 1
+  · left
+    have : (components n (labels n (edges A))).length = 1 := h1
+    simp only [this, beq_self_eq_true, if_true, Except.ok.injEq] at h
+    subst h
+    exact ⟨h1, rfl, rfl, rfl, rfl⟩
+  · right
+    have hne : ((components n (labels n (edges A))).length == 1) = false := by
+      simpa using h1
+    simp only [hne, Bool.false_eq_true, if_false] at h
+    split at h
+    · cases h
+    · rename_i hany
+      simp only [Except.ok.injEq] at h
+      subst h
+      refine ⟨h1, ?_, rfl, rfl, rfl, rfl⟩
+      intro c hc
+      by_contra hcon
+      apply hany
+      simp only [List.any_eq_true, bne_iff_ne, ne_eq]
+      exact ⟨c, hc, hcon⟩
+
+
+
+theorem flatMap_fst_blocks (comps : List (List Nat × List Nat)) (ms : List Nat) :
+    (comps ++ ms.map (fun i => ([i], [i]))).flatMap (·.1) = comps.flatMap (·.1) ++ ms := by
+  rw [List.flatMap_append]
+  congr 1
+  induction ms with
+  | nil => rfl
+  | cons m ms ih => simp [List.flatMap_cons, ih]
+
+theorem flatMap_snd_blocks (comps : List (List Nat × List Nat)) (ms : List Nat) :
+    (comps ++ ms.map (fun i => ([i], [i]))).flatMap (·.2) = comps.flatMap (·.2) ++ ms := by
+  rw [List.flatMap_append]
+  congr 1
+  induction ms with
+  | nil => rfl
+  | cons m ms ih => simp [List.flatMap_cons, ih]
+
+theorem mem_missingRows (n : Nat) (comps : List (List Nat × List Nat)) (i : Nat) :
+    i ∈ missingRows n comps ↔ i < n ∧ i ∉ comps.flatMap (·.1) := by
+  simp [missingRows]
+
+theorem rowPerm_perm_aux (n : Nat) (lab : List Nat) :
+    ((components n lab).flatMap (·.1) ++ missingRows n (components n lab)).Perm (List.range n) := by
+  rw [List.perm_ext_iff_of_nodup _ List.nodup_range]
+  · intro i
+    rw [List.mem_append, List.mem_range, mem_missingRows]
+    constructor
+    · rintro (h | h)
+      · exact components_rows_lt n lab i h
+      · exact h.1
+    · intro hi
+      by_cases hu : i ∈ (components n lab).flatMap (·.1)
+      · exact Or.inl hu
+      · exact Or.inr ⟨hi, hu⟩
+  · rw [List.nodup_append]
+    refine ⟨nodup_components_rows n lab, List.Nodup.filter _ List.nodup_range, ?_⟩
+    intro a ha b hb hab
+    subst hab
+    exact ((mem_missingRows _ _ _).mp hb).2 ha
+
+theorem sum_length_eq (comps : List (List Nat × List Nat)) (h : ∀ c ∈ comps, c.1.length = c.2.length) :
+    (comps.flatMap (·.1)).length = (comps.flatMap (·.2)).length := by
+  induction comps with
+  | nil => rfl
+  | cons c cs ih =>
+    simp only [List.flatMap_cons, List.length_append]
+    rw [h c List.mem_cons_self, ih (fun c' hc' => h c' (List.mem_cons_of_mem _ hc'))]
+
+/-- a duplicate-free list of `n` numbers below `n` is a permutation of `0 … n-1` -/
+theorem perm_range_of_nodup (n : Nat) (l : List Nat) (hnd : l.Nodup) (hlt : ∀ i ∈ l, i < n)
+    (hlen : l.length = n) : l.Perm (List.range n) := by
+  have hsub : l.Subperm (List.range n) :=
+    List.Nodup.subperm hnd (fun i hi => List.mem_range.mpr (hlt i hi))
+  exact hsub.perm_of_length_le (by simp [hlen])
+
+
+
+/-! ### reading a list of rows as a Mathlib matrix -/
+
+/-- the `n × n` Mathlib matrix of a list of rows -/
+def toMatrix (n : Nat) (L : Mat) : Matrix (Fin n) (Fin n) ℚ := fun i j => entry L i j
+
+
+theorem getD_zeros (w j : Nat) : (zeros w)[j]?.getD 0 = 0 := by
+  simp only [zeros, List.getElem?_replicate]
+  split <;> rfl
+
+theorem getD_smul (c : Rat) (a : Vec) (j : Nat) : (smul c a)[j]?.getD 0 = c * a[j]?.getD 0 := by
+  induction a generalizing j with
+  | nil => simp
+  | cons x a ih => cases j <;> simp [ih]
+
+theorem getD_vadd (a b : Vec) (h : a.length = b.length) (j : Nat) :
+    (vadd a b)[j]?.getD 0 = a[j]?.getD 0 + b[j]?.getD 0 := by
+  induction a generalizing b j with
+  | nil => cases b <;> simp_all
+  | cons x a ih =>
+    cases b with
+    | nil => simp at h
+    | cons y b =>
+      cases j with
+      | zero => simp
+      | succ j => simpa using ih b (by simpa using h) j
+
+theorem getD_unitVec (n i j : Nat) (hj : j < n) : (unitVec n i)[j]?.getD 0 = if j = i then 1 else 0 := by
+  simp [unitVec, hj]
+
+theorem getD_vecMat (w : Nat) (b : Vec) (A : Mat) (hA : ∀ a ∈ A, a.length = w) (hl : b.length = A.length)
+    (j : Nat) :
+    (vecMat w b A)[j]?.getD 0 = ∑ k ∈ Finset.range A.length, b[k]?.getD 0 * (A[k]?.getD [])[j]?.getD 0 := by
+  induction b generalizing A with
+  | nil =>
+    cases A with
+    | nil => simp [getD_zeros]
+    | cons a A => simp at hl
+  | cons x b ih =>
+    cases A with
+    | nil => simp at hl
+    | cons a A =>
+      have hA' : ∀ a' ∈ A, a'.length = w := fun a' h => hA a' (List.mem_cons_of_mem _ h)
+      rw [vecMat_cons, getD_vadd _ _ (by simp [length_vecMat w b A hA', hA a List.mem_cons_self]),
+        getD_smul, ih A hA' (by simpa using hl), List.length_cons, Finset.sum_range_succ']
+      simp [add_comm]
+
+theorem toMatrix_mul_of_matMul (n : Nat) (A B : Mat) (hA : A.length = n) (hAr : ∀ a ∈ A, a.length = n)
+    (hB : B.length = n) (hBr : ∀ b ∈ B, b.length = n) (h : matMul n B A = identity n) :
+    toMatrix n B * toMatrix n A = 1 := by
+  ext i j
+  simp only [Matrix.mul_apply, toMatrix, entry_eq']
+  have hi : (i : Nat) < B.length := by rw [hB]; exact i.2
+  have hrow : vecMat n (B[(i : Nat)]?.getD []) A = unitVec n i := by
+    have h1 : (matMul n B A)[(i : Nat)]? = (identity n)[(i : Nat)]? := by rw [h]
+    simpa [matMul, identity, hi, i.2] using h1
+  have hbl : (B[(i : Nat)]?.getD []).length = A.length := by
+    rw [hA]; apply hBr
+    simp [hi]
+  have := getD_vecMat n (B[(i : Nat)]?.getD []) A hAr hbl j
+  rw [hrow, getD_unitVec n i j j.2, hA, Finset.sum_range] at this
+  rw [← this, Matrix.one_apply]
+  simp [Fin.ext_iff, eq_comm]
+
+
+/-! ### block structure of Mathlib matrices -/
+
+section Algebra
+open Matrix
+variable {K : Type*} [Field K]
+variable {n : Type*} [Fintype n] [DecidableEq n]
+variable {ι : Type*} [DecidableEq ι]
+
+omit [DecidableEq n] in
+/-- sum over all indices = sum over the fibre when the summand vanishes outside the fibre -/
+theorem sum_fibre (g : n → ι) (k : ι) (h : n → K) (h0 : ∀ j, g j ≠ k → h j = 0) :
+    ∑ j : {j // g j = k}, h j.1 = ∑ j, h j := by
+  rw [← Finset.sum_subtype (Finset.univ.filter (fun j => g j = k)) (by simp) h]
+  rw [Finset.sum_filter]
+  apply Finset.sum_congr rfl
+  intro j _
+  by_cases hj : g j = k
+  · simp [hj]
+  · simp [hj, h0 j hj]
+
+/-- if `A * B = 1` and the pattern of `A` respects the classifications `f` (rows) and `g` (columns),
+    then the `k`-block of `A` times the transposed-position block of `B` is the identity -/
+theorem closed_block_mul_right (A B : Matrix n n K) (f g : n → ι)
+    (hcl : ∀ i j, A i j ≠ 0 → f i = g j) (hAB : A * B = 1) (k : ι) :
+    A.submatrix (Subtype.val : {i // f i = k} → n) (Subtype.val : {j // g j = k} → n)
+      * B.submatrix (Subtype.val : {j // g j = k} → n) (Subtype.val : {i // f i = k} → n) = 1 := by
+  ext ⟨i, hi⟩ ⟨i', hi'⟩
+  simp only [Matrix.mul_apply, Matrix.submatrix_apply]
+  rw [sum_fibre g k (fun j => A i j * B j i')]
+  · have := congrFun (congrFun hAB i) i'
+    simp only [Matrix.mul_apply] at this
+    rw [this]
+    simp [Matrix.one_apply, Subtype.ext_iff]
+  · intro j hj
+    have : A i j = 0 := by
+      by_contra hne
+      exact hj ((hcl i j hne).symm.trans hi)
+    simp [this]
+
+theorem closed_block_mul_left (A B : Matrix n n K) (f g : n → ι)
+    (hcl : ∀ i j, A i j ≠ 0 → f i = g j) (hBA : B * A = 1) (k : ι) :
+    B.submatrix (Subtype.val : {j // g j = k} → n) (Subtype.val : {i // f i = k} → n)
+      * A.submatrix (Subtype.val : {i // f i = k} → n) (Subtype.val : {j // g j = k} → n) = 1 := by
+  ext ⟨j, hj⟩ ⟨j', hj'⟩
+  simp only [Matrix.mul_apply, Matrix.submatrix_apply]
+  rw [sum_fibre f k (fun i => B j i * A i j')]
+  · have := congrFun (congrFun hBA j) j'
+    simp only [Matrix.mul_apply] at this
+    rw [this]
+    simp [Matrix.one_apply, Subtype.ext_iff]
+  · intro i hi
+    have : A i j' = 0 := by
+      by_contra hne
+      exact hi ((hcl i j' hne).trans hj')
+    simp [this]
+
+/-- `M * N = 1` for rectangular `M : R × C`, `N : C × R` forces `|R| ≤ |C|` -/
+theorem card_le_of_mul_eq_one {R C : Type*} [Fintype R] [Fintype C] [DecidableEq R]
+    (M : Matrix R C K) (N : Matrix C R K) (h : M * N = 1) : Fintype.card R ≤ Fintype.card C := by
+  have h1 : (M * N).rank = Fintype.card R := by rw [h, Matrix.rank_one]
+  calc Fintype.card R = (M * N).rank := h1.symm
+    _ ≤ M.rank := Matrix.rank_mul_le_left M N
+    _ ≤ Fintype.card C := Matrix.rank_le_card_width M
+
+end Algebra
+
+/-! ### the csr layout of `block_diag_matrix` -/
+
+/-- row-wise listing `(column, value)` of a block-diagonal matrix with full blocks: the rows of
+    block `B` (offset `o`) carry the columns `o … o + |B| - 1` -/
+def layoutRows : Nat → List Mat → List (List (Nat × Rat))
+  | _, [] => []
+  | o, B :: Bs => B.map (fun r => (List.range' o B.length).zip r) ++ layoutRows (o + B.length) Bs
+
+/-- every block is square -/
+def SquareBlocks (blocks : List Mat) : Prop := ∀ B ∈ blocks, ∀ r ∈ B, r.length = B.length
+
+theorem length_replicate_flatten_eq {α β : Type} (R : List α) (B : List (List β))
+    (h : ∀ r ∈ B, r.length = R.length) :
+    ((List.replicate B.length R).flatten).length = B.flatten.length := by
+  induction B with
+  | nil => rfl
+  | cons r B ih =>
+    simp only [List.length_cons, List.replicate_succ, List.flatten_cons, List.length_append]
+    rw [ih (fun r' hr' => h r' (List.mem_cons_of_mem _ hr')), h r List.mem_cons_self]
+
+theorem zip_replicate_flatten {α β : Type} (R : List α) (B : List (List β))
+    (h : ∀ r ∈ B, r.length = R.length) :
+    ((List.replicate B.length R).flatten).zip B.flatten = (B.map (fun r => R.zip r)).flatten := by
+  induction B with
+  | nil => rfl
+  | cons r B ih =>
+    simp only [List.length_cons, List.replicate_succ, List.flatten_cons, List.map_cons]
+    rw [List.zip_append (h r List.mem_cons_self).symm,
+      ih (fun r' hr' => h r' (List.mem_cons_of_mem _ hr'))]
+
+theorem layout_entries (o : Nat) (blocks : List Mat) (hsq : SquareBlocks blocks) :
+    (blockDiagIndex o (blocks.map List.length)).zip (blockDiagData blocks)
+      = (layoutRows o blocks).flatten ∧
+    (blockDiagIndex o (blocks.map List.length)).length = (blockDiagData blocks).length := by
+  induction blocks generalizing o with
+  | nil => exact ⟨rfl, rfl⟩
+  | cons B Bs ih =>
+    have hB : ∀ r ∈ B, r.length = (List.range' o B.length).length := by
+      intro r hr; rw [List.length_range']; exact hsq B List.mem_cons_self r hr
+    obtain ⟨ih1, ih2⟩ := ih (o + B.length) (fun B' hB' => hsq B' (List.mem_cons_of_mem _ hB'))
+    have hlen := length_replicate_flatten_eq (List.range' o B.length) B hB
+    simp only [List.map_cons, blockDiagIndex, blockDiagData, List.flatMap_cons, layoutRows,
+      List.flatten_append]
+    constructor
+    · rw [List.zip_append hlen, zip_replicate_flatten _ B hB]
+      congr 1
+    · rw [List.length_append, List.length_append, hlen]
+      congr 1
+
+theorem layout_rowLengths (o : Nat) (blocks : List Mat) (hsq : SquareBlocks blocks) :
+    rowLengths (blocks.map List.length) = (layoutRows o blocks).map List.length := by
+  induction blocks generalizing o with
+  | nil => rfl
+  | cons B Bs ih =>
+    simp only [List.map_cons, rowLengths, List.flatMap_cons, layoutRows, List.map_append, List.map_map]
+    congr 1
+    · apply List.ext_getElem
+      · simp
+      · intro i h1 h2
+        simp only [List.getElem_replicate, List.getElem_map, Function.comp_apply, List.length_zip,
+          List.length_range']
+        have hi : i < B.length := by simpa using h1
+        have : B[i].length = B.length := hsq B List.mem_cons_self _ (List.getElem_mem hi)
+        omega
+    · exact ih (o + B.length) (fun B' hB' => hsq B' (List.mem_cons_of_mem _ hB'))
+
+
+theorem invertAll_forall₂ (Bs Xs : List Mat) (h : invertAll Bs = some Xs) :
+    List.Forall₂ (fun B X => inverse B = some X) Bs Xs := by
+  induction Bs generalizing Xs with
+  | nil =>
+    simp only [invertAll, Option.some.injEq] at h
+    subst h
+    exact List.Forall₂.nil
+  | cons B Bs ih =>
+    unfold invertAll at h
+    split at h
+    · cases h
+    · rename_i X hX
+      split at h
+      · cases h
+      · rename_i Xs' hXs
+        simp only [Option.some.injEq] at h
+        subst h
+        exact List.Forall₂.cons hX (ih Xs' hXs)
+
+theorem forall₂_inverse_square (Bs Xs : List Mat)
+    (h : List.Forall₂ (fun B X => inverse B = some X) Bs Xs) :
+    SquareBlocks Xs ∧ Xs.map List.length = Bs.map List.length := by
+  induction h with
+  | nil => exact ⟨fun B hB => absurd hB List.not_mem_nil, rfl⟩
+  | cons hX _ ih =>
+    rename_i B X Bs Xs _
+    obtain ⟨h1, h2⟩ := inverse_length B X hX
+    constructor
+    · intro Y hY
+      rcases List.mem_cons.mp hY with rfl | hY
+      · intro r hr; rw [h2 r hr, h1]
+      · exact ih.1 Y hY
+    · simp [h1, ih.2]
+
+theorem extractBlocks_lengths (A : Mat) (o : Nat) (ss : List Nat) (h : o + ss.sum ≤ A.length) :
+    (extractBlocks A o ss).map List.length = ss := by
+  induction ss generalizing o with
+  | nil => rfl
+  | cons s ss ih =>
+    simp only [List.sum_cons] at h
+    simp only [extractBlocks, List.map_cons, extractBlock, List.length_map, List.length_take,
+      List.length_drop]
+    rw [ih (o + s) (by omega)]
+    congr 1
+    omega
 
 
 end PorepyVerif.C37
